@@ -211,6 +211,21 @@ def estimator_run(eng, curve, hist, order):
         raise
     except Exception as ex:   # the stand-in cannot model everything a pool refactor may do
         problems.append(('pool-exception', 'pool path raised %r' % (ex, )))
+    # the caller's element list need not be in creation order: the assembled indicators for a reversed list must be
+    # the direct sums too
+    rev = elems[::-1]
+    sob_rev = est.estimate_sobolev(rev, residual, use_mp=False)
+    for i, e in enumerate(rev):
+        for col, which in ((0, 'time'), (1, 'space')):
+            if (which, e.glob_idx) in direct:
+                ok, _ = eng.prove_identity(sob_rev[i, col], direct[(which, e.glob_idx)], 'shortcut-reversed', rtol=1e-12)
+                if not ok:
+                    problems.append(('shortcut-order', 'estimate_sobolev (%s) on a reversed element list differs from the '
+                                     'direct sum over all neighbours for %r' % (which, e)))
+                    break
+        else:
+            continue
+        break
     # symmetric accumulation
     sob = est.estimate_sobolev(elems, residual, use_mp=False)
     for i, e in enumerate(elems):
@@ -227,6 +242,18 @@ def l2_run(eng, order):
     EE, M = load()
     gamma = slsym.curve_pieces('UnitSquare')
     mesh = M.MeshParametrized(gamma)
+    # the four orders of a tuple N_poly reach the rules they are named for: (weighted L2, outer Gauss, H^{1/4} in
+    # time, H^{1/2} in space)
+    est4 = EE.ErrorEstimator(mesh, N_poly=(3, 5, 7, 9))
+    counts = (len(est4.gauss_2d.weights), len(est4.gauss.weights), len(est4.slobodeckij.gauss_sqrtinv.weights),
+              len(est4.slobodeckij.gauss_x.weights), len(est4.slobodeckij.gauss_leg.weights))
+    import importlib as _il
+    Q = _il.import_module('src.quadrature')
+    want = (len(Q.gauss_quadrature_scheme(3).weights)**2, len(Q.gauss_quadrature_scheme(5).weights),
+            len(Q.gauss_sqrtinv_quadrature_scheme(7).weights), len(Q.gauss_x_quadrature_scheme(9).weights),
+            len(Q.gauss_quadrature_scheme(9).weights))
+    if counts != want:
+        return 'orders', counts, want
     est = EE.ErrorEstimator(mesh, N_poly=order)
     s, hx, ta, xa = eng.reals('s hx ta xa')
     eng.assume(s > 0)
@@ -259,6 +286,13 @@ def worker(case):
             for pr in eng.explore(lambda: l2_run(eng, case[1])):
                 res['evaluations'] += 1
                 res['nontrivial'] += 1
+                if pr.status == 'ok' and pr.value and pr.value[0] == 'orders':
+                    rp = dict(kind='l2', order=case[1])
+                    res['violations'].append(dict(signature='orders', what='ErrorEstimator(N_poly=(3,5,7,9)) builds rules with '
+                                                  '%r points, expected %r (weighted L2, outer Gauss, H^{1/4} in time, H^{1/2} '
+                                                  'in space x2): the four orders do not reach the rules they are named for' %
+                                                  (pr.value[1], pr.value[2]), replay=rp, reproduced=True))
+                    continue
                 if pr.status == 'exc' or not all(pr.value):
                     rp = dict(kind='l2', order=case[1])
                     res['violations'].append(dict(signature='weighted-l2', what='weighted_l2 is not (h_t^{-1/2}, h_x^{-1}) '
